@@ -23,6 +23,7 @@ import common
 import coreops
 import fbagen
 import lpcert
+import auxcorr
 
 logging.disable(logging.CRITICAL)
 common.ensure_repo_on_path()
@@ -260,6 +261,22 @@ def check_case(case):
     return check_setter(case) if case["kind"] == "setter" else check_minimal(case)
 
 
+def aux_stage(ctx):
+    """The problems minimal_medium hands to GLPK (linear and MIP) vs `AuxM.Net.mediumLinear / mediumMip`; returns oracle cases where they differ."""
+    def f_med(mip):
+        def f(make, spec, rng):
+            return auxcorr.pairs_medium(make(), rng.choice([0.5, 1, 2, 0.125]), mip, rng.choice([False, False, True, 50]))
+        return f
+    mism = auxcorr.stage(ctx, [("minimal_medium", f_med(False)), ("minimal_medium(minimize_components)", f_med(True))], gen_spec, ctx.scale(40, 500))
+    cases = []
+    for mm in mism[:6]:
+        for q in ("1/2", "1", "2"):
+            for op in (False, True):
+                cases.append({"kind": "minimal", "spec": mm["spec"], "min_objective_value": q, "exports": False,
+                              "minimize_components": "components" in mm["label"], "open_exchanges": op})
+    return cases
+
+
 def run(ctx):
     if getattr(ctx, "replay", None):
         data = json.loads(open(ctx.replay).read())
@@ -271,7 +288,8 @@ def run(ctx):
                 print(f"VIOLATION property=C18 replay={ctx.replay}")
                 return 1
         return 0
-    common.proof_stage(ctx, "CobraModel.Props.C18", extra_scan=["CobraModel/Lemmas/Formulations.lean", "CobraModel/Lemmas/LP.lean", "CobraModel/Model/Medium.lean"])
+    common.proof_stage(ctx, "CobraModel.Props.C18", extra_scan=["CobraModel/Lemmas/Formulations.lean", "CobraModel/Lemmas/LP.lean", "CobraModel/Model/Medium.lean"] + auxcorr.SCAN)
+    directed = aux_stage(ctx)
     rng = ctx.rng
     n = ctx.scale(300, 6000)
     ran, tries = 0, 0
@@ -279,7 +297,7 @@ def run(ctx):
     distinct = set()
     samples = []
     corr_n = 0
-    corpus = common.load_corpus("C18")
+    corpus = directed + common.load_corpus("C18")
     while ran < n and tries < n * 3 and not ctx.violations:
         tries += 1
         case = corpus.pop(0) if corpus else gen_case(rng)
